@@ -6,7 +6,7 @@ use crate::exception::ExceptionCode;
 use crate::server::types::*;
 use crate::types::*;
 use crate::shims::scursor::ReadCursor;
-use crate::spec::be16;
+use crate::be16;
 
 //@item rodbus/src/server/request.rs | Request | derive=
 //@item rodbus/src/server/request.rs | BroadcastRequest | derive=
